@@ -167,9 +167,14 @@ AclR = U.opaque("AclR")
 OptAcl = U.union("OptAcl", dict(none=None, some=AclR))
 OptAcl.truthy_tags = ()
 AclList = SeqT(OptAcl)
-cdl = M.opaque("cdl", [DiffPre, Tree, Tree], DiffO, impl=None, note="call_diff_logic(diff_pre, old, new) (assumed contract, see specs.basediff)")
-aad = M.opaque("aad", [DiffO, AclR], DiffO, impl=None, note="apply_acl_diff(diff, rules) (proved in specs.patching)")
-mku = M.opaque("mku", [DiffO], DiffO, impl=None, note="mark_unchanged(diff) (proved in specs.patching)")
+def _cdl_impl(dp, old, new):
+    from annet.annlib.rulebook import common as _c
+    return _c.call_diff_logic(dp, old, new)
+
+
+cdl = M.opaque("cdl", [DiffPre, Tree, Tree], DiffO, impl=_cdl_impl, note="call_diff_logic(diff_pre, old, new) (assumed contract, see specs.basediff)")
+aad = M.opaque("aad", [DiffO, AclR], DiffO, impl=lambda d, acl: _p.apply_acl_diff(d, acl), note="apply_acl_diff(diff, rules) (proved in specs.patching)")
+mku = M.opaque("mku", [DiffO], DiffO, impl=lambda d: _p.mark_unchanged(d), note="mark_unchanged(diff) (proved in specs.patching)")
 
 
 @M.spec
@@ -190,7 +195,41 @@ M.contract(F, "<apply_acl_diff>", params=dict(diff=DiffO, rules=AclR), ret=DiffO
 M.contract(F, "<mark_unchanged>", params=dict(diff=DiffO), ret=DiffO, trusted=True, ensures=["result == mku(diff)"],
            note="proved in specs.patching (pure)", properties=["C03"])
 
-M.contract(F, "make_diff", params=dict(old=Tree, new=Tree, rb=Rb, acl_rules_list=AclList), ret=DiffO, locals=dict(diff=DiffO),
+def _native_full_rules():
+    """rules as the compiled patching rulebook has them (attrs with the fields _select_match / the diff logics read)"""
+    import re
+    from annet.annlib.rulebook import common as _c
+
+    def rule(pat, typ="normal", local=None, logic=_c.default_diff):
+        return {"type": typ, "attrs": {"regexp": re.compile(pat), "diff_logic": logic, "ignore_case": False, "multiline": False,
+                                       "context": None, "comment": [], "logic": None},
+                "children": {"local": odict(local or []), "global": odict()}}
+    x = rule(r"^x\s+(\S+)$")
+    a = rule(r"^a\s+(\S+)$", local=[("x *", x)])
+    o = rule(r"^b\s+(\S+)$", logic=_c.ordered_diff)
+    ig = rule(r"^a\s+2$", "ignore")
+    yield {"local": odict([("a *", a), ("b *", o)]), "global": odict()}
+    yield {"local": odict([("a 2", ig), ("a *", a)]), "global": odict()}
+
+
+def _md_inputs():
+    import re
+    from annet.annlib.rbparser import acl as _acl
+    trees = list(_native_trees())
+    acls = [[], [None], [None, None]]
+    try:
+        acls.append([_acl.compile_acl_text("a *\n    x *\n", "huawei")])
+    except Exception:
+        pass
+    for rules in _native_full_rules():
+        for i, old in enumerate(trees[::3]):
+            for new in trees[i % 5::5]:
+                for al in acls:
+                    yield dict(old=old, new=new, rb={"patching": rules}, acl_rules_list=al)
+
+
+M.contract(F, "make_diff", params=dict(old=Tree, new=Tree, rb=Rb, acl_rules_list=AclList), ret=DiffO, locals=dict(diff=DiffO), inputs=_md_inputs,
+           native_frame_skip=["acl_rules_list"],      # compiled ACL rules carry the scratch field attrs.match that matching overwrites
            ensures=["result == mku(fold_acl(acl_rules_list, cdl(dpf(ukeys(old, new), old, new, rb['patching'], {}), "
                     "fp(ukeys(old, new), old, new, rb['patching'])[0], fp(ukeys(old, new), old, new, rb['patching'])[1])))"],
            loops={1: dict(match="acl_rules_list", inv=["fold_acl(_rest1, diff) == fold_acl(acl_rules_list, "
